@@ -36,7 +36,7 @@ TOL_WIDTH = 5e-2     # widths lag the pressure iteration (stops at pressRelErrTo
 TOL_OFFSET = 2e-2
 CFG = {"M": 25, "N": 5, "errTol": 1e-3, "phaseTracerTol": 1e-6, "hydro_rtol": 1e-6}
 FLOORS = {
-    "quick": {"distinct_nontrivial": 6, "mon": {"pairs_compared": 12, "solve_pairs": 6}},
+    "quick": {"distinct_nontrivial": 4, "mon": {"pairs_compared": 12, "solve_pairs": 4}},
     "thorough": {"distinct_nontrivial": 150, "mon": {"pairs_compared": 200, "solve_pairs": 150}},
 }
 
@@ -47,11 +47,13 @@ def worker_init():
 
 def generate(tier, seed):
     rng = np.random.default_rng(800 + seed)
-    n = 11 if tier == "quick" else 34
+    n = 13 if tier == "quick" else 36
     ntr = 2 if tier == "quick" else 7
     cases = []
     for i in range(n):
         fam = "poly2" if rng.random() < 0.75 else "poly1"
+        if i % 3 == 1:
+            fam = "poly1"     # one-field points mostly end in a finite velocity (floor solve_pairs)
         gen = "random_poly2_thick" if fam == "poly2" and rng.random() < 0.5 else "random_" + fam
         sfac = float(10 ** rng.uniform(-1, 2))
         forced = i % 4 == 0
@@ -258,6 +260,10 @@ def run_case(case):
     if not ref["p_trace"]:
         return {"key": key0, "cls": "inadmissible(P_trace)", "nontrivial": False,
                 "obs": {"why": ref["p_trace_why"], "spec": spec}, "viol": [], "mon": mon}
+    mu = [x for x in ref.get("mu_ends", []) if np.isfinite(x)]
+    if mu and (max(mu) > 60 or min(mu) < 2):
+        return {"key": key0, "cls": "inadmissible(P_eos)", "nontrivial": False,
+                "obs": {"mu_ends": ref.get("mu_ends"), "spec": spec}, "viol": [], "mon": mon}
     vev = pot0.field_scale(ref["Tn"]) / spec.get("s", 1.0)      # shift is given per unit s
     for tr in case["transforms"]:
         tag = f"{spec['family']} #{case['i']}"
